@@ -279,13 +279,13 @@ func c15Run[T any](c *c15ctx, v, pre, otherVal T, plain any, hasPlain bool, isOp
 	r := c.r
 	rec, err := json.Marshal(v)
 	if err != nil {
-		r.Violate("marshal-error", "%s: Marshal(%v) failed: %v", c.name, v, err)
+		r.Violate("marshal-error:"+c.name, "%s: Marshal(%v) failed: %v", c.name, v, err)
 		return
 	}
 	if hasPlain {
 		want, _ := json.Marshal(plain)
 		if !bytes.Equal(rec, want) {
-			r.Violate("encoding-differs", "%s: Marshal gives %s, encoding/json gives %s for the plain value", c.name, rec, want)
+			r.Violate("encoding-differs:"+c.name, "%s: Marshal gives %s, encoding/json gives %s for the plain value", c.name, rec, want)
 			return
 		}
 	}
@@ -295,7 +295,7 @@ func c15Run[T any](c *c15ctx, v, pre, otherVal T, plain any, hasPlain bool, isOp
 	if mv, ok := any(v).(json.Marshaler); ok {
 		atRest, err := mv.MarshalJSON()
 		if err != nil {
-			r.Violate("marshal-error", "%s: MarshalJSON(%v) failed: %v", c.name, v, err)
+			r.Violate("marshal-error:"+c.name, "%s: MarshalJSON(%v) failed: %v", c.name, v, err)
 			return
 		}
 		snapshot := append([]byte(nil), atRest...)
@@ -306,12 +306,12 @@ func c15Run[T any](c *c15ctx, v, pre, otherVal T, plain any, hasPlain bool, isOp
 		}
 		r.Probe("records-kept-at-rest-while-writer-continues")
 		if !bytes.Equal(atRest, snapshot) {
-			r.Violate("record-changed-at-rest", "%s: the bytes MarshalJSON returned for %v were %s and read %s after later MarshalJSON calls on other values", c.name, v, snapshot, atRest)
+			r.Violate("record-changed-at-rest:"+c.name, "%s: the bytes MarshalJSON returned for %v were %s and read %s after later MarshalJSON calls on other values", c.name, v, snapshot, atRest)
 			return
 		}
 		var viaStd, viaOwn bytes.Buffer
 		if json.Compact(&viaStd, rec) == nil && json.Compact(&viaOwn, snapshot) == nil && !bytes.Equal(viaStd.Bytes(), viaOwn.Bytes()) {
-			r.Violate("encoding-differs", "%s: MarshalJSON gives %s, json.Marshal gives %s", c.name, snapshot, rec)
+			r.Violate("encoding-differs:"+c.name, "%s: MarshalJSON gives %s, json.Marshal gives %s", c.name, snapshot, rec)
 			return
 		}
 	}
@@ -331,15 +331,15 @@ func c15Run[T any](c *c15ctx, v, pre, otherVal T, plain any, hasPlain bool, isOp
 		got, err, pan := c15Decode(c, rec, ffPre, dec, chunks, -1)
 		r.Probe("fault-free-decodes")
 		if pan != nil {
-			r.Violate("decode-panic", "%s: decoding the intact record %s panicked: %v", c.name, rec, pan)
+			r.Violate("decode-panic:"+c.name, "%s: decoding the intact record %s panicked: %v", c.name, rec, pan)
 			return
 		}
 		if err != nil {
-			r.Violate("roundtrip-error", "%s: decoding the intact record %s failed: %v", c.name, rec, err)
+			r.Violate("roundtrip-error:"+c.name, "%s: decoding the intact record %s failed: %v", c.name, rec, err)
 			return
 		}
 		if !reflect.DeepEqual(got, v) {
-			r.Violate("roundtrip-mismatch", "%s: %s decodes to %#v, original %#v (decoder=%v)", c.name, rec, got, v, dec)
+			r.Violate("roundtrip-mismatch:"+c.name, "%s: %s decodes to %s, original %s (decoder=%v)", c.name, rec, c15Dump(got), c15Dump(v), dec)
 			return
 		}
 	}
@@ -368,13 +368,13 @@ func c15Run[T any](c *c15ctx, v, pre, otherVal T, plain any, hasPlain bool, isOp
 				r.NonTrivial()
 			}
 			if pan != nil {
-				r.Violate("decode-panic", "%s: record %q after %s: decoding panicked: %v", c.name, rec, names[i], pan)
+				r.Violate("decode-panic:"+c.name, "%s: record %q after %s: decoding panicked: %v", c.name, rec, names[i], pan)
 				return
 			}
 			if err != nil {
 				r.Probe("faulted-decode-rejected")
 				if isOptTarget && !reflect.DeepEqual(got, pre) {
-					r.Violate("target-changed-on-error", "%s: record %q after %s: decode returned %v but changed the target from %#v to %#v", c.name, rec, names[i], err, pre, got)
+					r.Violate("target-changed-on-error:"+c.name, "%s: record %q after %s: decode returned %v but changed the target from %#v to %#v", c.name, rec, names[i], err, pre, got)
 					return
 				}
 			} else {
@@ -388,15 +388,15 @@ func c15Run[T any](c *c15ctx, v, pre, otherVal T, plain any, hasPlain bool, isOp
 		got, err, pan := c15Decode(c, rec, pre, true, chunks, at)
 		r.Fault("reader-error-mid-stream")
 		if pan != nil {
-			r.Violate("decode-panic", "%s: reader failing at offset %d: decoding panicked: %v", c.name, at, pan)
+			r.Violate("decode-panic:"+c.name, "%s: reader failing at offset %d: decoding panicked: %v", c.name, at, pan)
 			return
 		}
 		if err == nil {
-			r.Violate("io-error-swallowed", "%s: the reader failed at offset %d of %q but Decode reported success (%#v)", c.name, at, rec, got)
+			r.Violate("io-error-swallowed:"+c.name, "%s: the reader failed at offset %d of %q but Decode reported success (%#v)", c.name, at, rec, got)
 			return
 		}
 		if isOptTarget && !reflect.DeepEqual(got, pre) {
-			r.Violate("target-changed-on-error", "%s: reader failing at offset %d: target changed from %#v to %#v", c.name, at, pre, got)
+			r.Violate("target-changed-on-error:"+c.name, "%s: reader failing at offset %d: target changed from %#v to %#v", c.name, at, pre, got)
 		}
 	}
 }
@@ -506,7 +506,7 @@ func execC15(r *sim.Run) {
 		c15Run(c, fp.None[fp.Unit](), c15Opt(r, preDef, fp.Unit{}), fp.None[fp.Unit](), nil, false, true)
 	case 16, 17, 18, 19:
 		c15Generated(c, kind, s1, s2, i1, i3, preDef)
-	case 20, 21, 22, 23, 24, 25:
+	case 20, 21, 22, 23, 24, 25, 26:
 		c15Fixture(c, kind-20, s1, s2, i1, i3, preDef)
 	default:
 		c.name = "*Option[int] inside struct pointer"
@@ -583,6 +583,24 @@ func c15Generated(c *c15ctx, kind int, s1, s2 string, i1, i3 int, preDef bool) {
 	}
 }
 
+// c15Dump prints a value field by field (a struct that embeds a Stringer would otherwise print as that Stringer only).
+func c15Dump(v any) string {
+	rv := reflect.ValueOf(v)
+	if !rv.IsValid() || rv.Kind() != reflect.Struct {
+		return fmt.Sprintf("%#v", v)
+	}
+	var sb strings.Builder
+	sb.WriteString(rv.Type().String() + "{")
+	for i := 0; i < rv.NumField(); i++ {
+		if i > 0 {
+			sb.WriteString(", ")
+		}
+		fmt.Fprintf(&sb, "%s:%v", rv.Type().Field(i).Name, rv.Field(i))
+	}
+	sb.WriteString("}")
+	return sb.String()
+}
+
 // c15Null: None <=> null, both ways.
 func c15Null[T any](c *c15ctx, v fp.Option[T], def bool) {
 	r := c.r
@@ -591,11 +609,11 @@ func c15Null[T any](c *c15ctx, v fp.Option[T], def bool) {
 	}
 	b, _ := json.Marshal(v)
 	if (string(b) == "null") != !def {
-		r.Violate("none-null", "%s: %v encodes as %s", c.name, v, b)
+		r.Violate("none-null:"+c.name, "%s: %v encodes as %s", c.name, v, b)
 		return
 	}
 	pre := v
 	if err := json.Unmarshal([]byte("null"), &pre); err != nil || pre.IsDefined() {
-		r.Violate("none-null", "%s: null decodes to %v (err %v), want None", c.name, pre, err)
+		r.Violate("none-null:"+c.name, "%s: null decodes to %v (err %v), want None", c.name, pre, err)
 	}
 }
